@@ -8,6 +8,8 @@ import time
 from mir import loc_str, AnchorError
 
 VERIF = os.path.dirname(os.path.dirname(os.path.abspath(__file__)))
+# evidence/ and replay/ live under /verif unless a mutant run redirects them
+OUT = os.environ.get("VERIF_OUT", VERIF)
 
 ASSUME_AT = (
     "A-T: trait methods of the caller's node-name/attribute types (Eq, Ord, Hash, Clone, Display) "
@@ -143,7 +145,7 @@ def finish(ctx, level, t0, explanation, trusted_base, checker_cmd, seed=0, extra
             new_viol.append(f)
     for f, k in known_hit:
         print("KNOWN-FINDING: property=%s %s [%s] %s" % (prop, k.get("what", f.what), f.full_key(), f.site or ""))
-    rdir = os.path.join(VERIF, "replay", prop)
+    rdir = os.path.join(OUT, "replay", prop)
     for f in new_viol:
         os.makedirs(rdir, exist_ok=True)
         h = hashlib.sha256(f.full_key().encode()).hexdigest()[:12]
@@ -203,8 +205,8 @@ def finish(ctx, level, t0, explanation, trusted_base, checker_cmd, seed=0, extra
         "wall_s": round(time.time() - t0, 2),
         "violations": len(new_viol),
     }
-    os.makedirs(os.path.join(VERIF, "evidence"), exist_ok=True)
-    with open(os.path.join(VERIF, "evidence", prop + ".json"), "w") as fh:
+    os.makedirs(os.path.join(OUT, "evidence"), exist_ok=True)
+    with open(os.path.join(OUT, "evidence", prop + ".json"), "w") as fh:
         json.dump(ev, fh, indent=1)
     print(
         "[%s] %s tier: %d obligations, %d discharged, %d known findings, %d new violations, %d undecided (%.1fs)"
